@@ -33,6 +33,7 @@ type SysGen struct {
 	Weights map[string]int
 	DevRate int // percent of requests that carry a deviation
 	stats   map[string]int
+	authd   *authdGen // RFC 9396 decoration of the random moves (gen_authd.go); nil outside Run
 }
 
 var scopePool = []string{"openid", "email", "profile", "offline_access", "pay:1", "pay:2", "admin"}
@@ -141,7 +142,8 @@ func baseClients(r *rand.Rand) []ClientSpec {
 		{ID: 2, Grants: []string{"authorization_code", "refresh_token", "client_credentials", jwtBearerGrant}, RespTypes: []string{"code"},
 			Redirects: []string{"https://c2.example/cb"}, Scopes: "openid email pay", JWT: true},
 		{ID: 3, Public: true, Grants: []string{"authorization_code", "refresh_token", "implicit"}, RespTypes: allResp,
-			Redirects: []string{"https://c3.example/cb"}, Scopes: "openid profile"},
+			Redirects: []string{"https://c3.example/cb"}, Scopes: "openid profile",
+			DetailTypesSet: true, DetailTypes: []string{"payment_initiation", "account_information"}}, // registered authorization_data_types
 		{ID: 4, Grants: []string{"authorization_code", "client_credentials", jwtBearerGrant}, RespTypes: []string{"code"},
 			Redirects: []string{"https://c4.example/cb"}, Scopes: "openid email", JWT: true, Pairwise: true},
 		// a public client whose only business is the jwt-bearer grant (no redirect URI: it never shows up
@@ -208,6 +210,7 @@ func randomSpec(r *rand.Rand, flavour string, want map[string]bool) WorldSpec {
 		}
 		opts = append(opts, Opt{Name: name, S: first, L: rest})
 	}
+	opts = append(opts, authdRandomOpts(r, want)...)
 	if want["refresh"] || r.Intn(4) != 0 {
 		opts = append(opts, Opt{Name: "WithRefreshTokenGrant", Z: pick(r, []int{200, 400, 1000}),
 			S: pick(r, []string{"", "", "", "IssueIfOffline", "IssueCodeOnly"})})
@@ -311,8 +314,10 @@ func (g *SysGen) clients() []ClientSpec {
 func (g *SysGen) client(id int) *ClientSpec { return g.W.clientSpec(id) }
 
 func (g *SysGen) do(o Op) Obs {
+	o = authdDecorate(g, o)
 	g.W.step = len(g.Ops)
 	obs := g.W.Exec(o)
+	authdLearn(g, o, obs)
 	g.Ops = append(g.Ops, o)
 	g.Obs = append(g.Obs, obs)
 	g.stats["op:"+o.Kind]++
@@ -1030,6 +1035,7 @@ func (g *SysGen) Run(nops int) {
 		ok   func() bool
 	}
 	yes := func() bool { return true }
+	g.authd = authdNewGen(g)
 	moves := []mv{
 		{"authorize", g.mvAuthorize, yes},
 		{"callback", g.mvCallback, func() bool { return len(g.cbs) > 0 || g.R.Intn(6) == 0 }},
